@@ -24,7 +24,7 @@ func GenIngressWorld(t *rapid.T, admin bool) *World {
 	// make container ports likely to be hit by service target ports
 	for i := range w.Workloads {
 		wl := &w.Workloads[i]
-		n := rapid.IntRange(0, 2).Draw(t, fmt.Sprintf("ingcp%dn", i))
+		n := rapid.IntRange(0, 3).Draw(t, fmt.Sprintf("ingcp%dn", i))
 		used := map[string]bool{}
 		for _, cp := range wl.Ports {
 			used[cp.Name] = true
@@ -91,12 +91,12 @@ func GenIngressWorld(t *rapid.T, admin bool) *World {
 				}
 				usedN[sp.Name] = true
 			}
-			switch rapid.IntRange(0, 3).Draw(t, pl+"tk") {
+			switch rapid.IntRange(0, 6).Draw(t, pl+"tk") {
 			case 1:
 				sp.TargetNum = rapid.SampledFrom(svcPortPool).Draw(t, pl+"tnum")
 			case 2:
 				sp.TargetName = rapid.SampledFrom(portNames).Draw(t, pl+"tname")
-			case 3:
+			case 3, 4, 5, 6:
 				// aim at a container port of the targeted workload
 				if target != nil && len(target.Ports) > 0 {
 					cp := target.Ports[rapid.IntRange(0, len(target.Ports)-1).Draw(t, pl+"tcp")]
